@@ -25,5 +25,6 @@ How to run things: the interpreter is /venv/bin/python; always set PYTHONPATH={w
 Cython itself is NOT installed. The generated C file of every .pyx module (x.c next to x.pyx; untracked, so it does not show in git diff) and the compiled module (x.cpython-312-x86_64-linux-gnu.so) are present. If you change a .pyx file you must mirror the change by hand in the generated x.c (Cython embeds every source line as a comment right above its C translation, so small changes - a constant, a sign, an index, a swapped argument, a comparison - are easy to locate) and recompile in the module's directory with:
   gcc -shared -fPIC -O3 -fopenmp -I/root/.pyenv/versions/3.12.1/include/python3.12 -I$(/venv/bin/python -c "import numpy; print(numpy.get_include())") -I{wt} -I. $(/venv/bin/python -c "import CyRK, os; d=os.path.dirname(CyRK.__file__); print(' '.join('-I'+os.path.join(d,x) for x in ('', 'cy', 'array', 'utils')))") x.c -o x.cpython-312-x86_64-linux-gnu.so
 In that case add to the output directory, besides patch.diff (the .pyx change), a file c_patch.diff with the diff of the generated .c (`diff -u x.c.orig x.c`, paths relative to the repository root) and say so in meta.json; keep a copy of the original .c/.so so that you can restore them afterwards. Python-only changes are much simpler: prefer them whenever the property can be broken from Python code.
+Do not use `git stash` (refs/stash is shared between all worktrees of the repository, other agents work in sibling worktrees): use `git diff > file`, `git apply -R`, `git checkout -- .` instead.
 There is no network access. After finishing each change restore the worktree with `git -C {wt} checkout -- .` (and rebuild anything you rebuilt) before starting the next one, and leave the worktree clean at the end.
 Report at the end, briefly, for each change: what it is, what it needs to manifest, and the test result.""")
